@@ -432,3 +432,53 @@ Definition check_case2 (ctxs : list ctx) (c : nat * string * jv * jv) : bool :=
   | Some cx => jv_eqb (observe cx r) o && jv_eqb (observe2 cx r) o2
   | None => false
   end.
+
+(* ================================================================ folders taken from a DIRECTORY LISTING
+   (appended: Manifest.fromDirectory, the implied manifest of a package / instance directory; nothing above is changed)
+
+   Manifest.fromDirectory(path, include_dirs, include_files) lists the entries of path with os.listdir and keeps an
+   entry when os.path.isdir(entry) (include_dirs) or else os.path.isfile(entry) (include_files).  Both tests use
+   stat(), i.e. they FOLLOW symbolic links: a link to a directory is a directory, a link to a regular file is a
+   file, a dangling link / a link loop / a fifo (or a link to one) is neither.  The kind of an entry is what
+   lstat() and stat() say about it; the harness creates real entries of every kind and tells the model their kind.
+   path itself is tested with os.path.isdir as well (a file, a missing path or a dangling link give the empty manifest).
+   method / resolve_paths only change the VALUES of the implied manifest, not its keys. *)
+Inductive ekind : Type :=
+  | KDir | KFile | KOther                      (* a directory, a regular file, a fifo / socket / device *)
+  | KLinkDir | KLinkFile | KLinkOther          (* a symbolic link that resolves to one of the above *)
+  | KDangling.                                 (* a symbolic link that does not resolve (missing target, loop) *)
+
+(* os.path.isdir / os.path.isfile: S_ISDIR / S_ISREG of os.stat(), which follows links; False when stat() fails *)
+Definition kind_isdir (k : ekind) : bool := match k with KDir | KLinkDir => true | _ => false end.
+Definition kind_isfile (k : ekind) : bool := match k with KFile | KLinkFile => true | _ => false end.
+
+Definition listing : Type := list (string * ekind).
+
+(* if include_dirs and isdir(e): keep   elif include_files and isfile(e): keep *)
+Definition keeps (inc_dirs inc_files : bool) (k : ekind) : bool :=
+  if inc_dirs && kind_isdir k then true else inc_files && kind_isfile k.
+
+(* the keys of the implied manifest, in listing order *)
+Definition from_directory (root : ekind) (inc_dirs inc_files : bool) (l : listing) : list string :=
+  if kind_isdir root then map fst (filter (fun e => keeps inc_dirs inc_files (snd e)) l) else [].
+
+(* Manifest.fromDirectory(path, ...).top_level_folders *)
+Definition dir_folders (root : ekind) (inc_dirs inc_files : bool) (l : listing) : list string :=
+  top_level_folders (from_directory root inc_dirs inc_files l).
+
+(* one listing case of the correspondence run:
+   (kind of the path, include_dirs, include_files, listing sorted by name,
+    keys of the implied manifest and top_level_folders of the implementation (sorted by name),
+    owner stage, known components, application dependencies,
+    [(reference string, observation, second observation)] made with the implementation's top_level_folders) *)
+Definition listing_case : Type :=
+  ekind * bool * bool * listing * list string * list string * N * list (N * list string) * list string
+  * list (string * jv * jv).
+
+Definition check_listing (c : listing_case) : bool :=
+  let '(root, incd, incf, l, keys, tlf, st, known, ad, refs) := c in
+  let mk := from_directory root incd incf l in
+  let cx := {| c_stage := st; c_known := known; c_appdeps := ad; c_keys := mk |} in
+  jv_eqb (JList (map JStr mk)) (JList (map JStr keys)) &&
+  jv_eqb (JList (map JStr (dir_folders root incd incf l))) (JList (map JStr tlf)) &&
+  forallb (fun x => let '(r, o, o2) := x in jv_eqb (observe cx r) o && jv_eqb (observe2 cx r) o2) refs.
